@@ -100,6 +100,15 @@ TOTAL_EXT = {
     "clear", "as_mut_slice", "deref_mut", "iter_mut", "try_push", "is_full", "capacity", "starts_with", "ends_with",
     "strip_prefix", "strip_suffix", "split_first", "split_once", "find_map", "try_from", "to_owned", "to_ascii_uppercase",
     "is_ascii_lowercase", "is_ascii_alphabetic", "swap", "contains",
+    # further combinators and adapters without a panicking path of their own (closures they call are analysed as units)
+    "transpose", "map_or", "map_or_else", "chain", "fold", "flatten", "flat_map", "filter_map", "take_while", "skip_while", "skip", "take_n",
+    "peekable", "peek", "by_ref", "nth", "min_by_key", "max_by_key", "min_by", "max_by", "for_each", "try_for_each", "try_fold", "inspect",
+    "last_mut", "first_mut", "or", "or_else", "xor", "and", "zip_with", "unzip", "rposition", "is_sorted", "eq_by", "cmp_by", "partial_cmp_by",
+    "as_deref", "as_deref_mut", "get_or_insert_with", "insert", "replace", "unwrap_unchecked_never", "copied_iter", "char_indices",
+    "split_whitespace", "lines", "trim_start", "trim_end", "to_lowercase", "to_uppercase", "push_str", "as_ptr", "is_digit", "is_alphanumeric",
+    "is_whitespace", "len_utf8", "encode_utf8", "saturating_sub", "checked_mul", "checked_div", "wrapping_shl", "wrapping_shr", "rotate_left",
+    "rotate_right", "pow_checked", "signum", "is_positive", "is_negative", "unsigned_abs", "from_le_bytes", "to_le_bytes", "from_be_bytes",
+    "to_be_bytes", "then_with", "reverse", "is_lt", "is_le", "is_gt", "is_ge", "is_eq", "is_ne", "borrow_mut", "as_any", "type_id",
 }
 # the ones in TOTAL_EXT that are total only with a qualification
 TOTAL_NOTES = {
